@@ -190,6 +190,7 @@ func TestVerifC04(t *testing.T) {
 	for _, ev := range []string{"member_dead", "member_stopped", "member_ioerr"} {
 		for _, mf := range []bool{false, true} {
 			pinned = append(pinned, base{4, []string{"member_ok", ev, "joiner_ok"}, 1, mf, false})
+			pinned = append(pinned, base{4, []string{"member_ok", ev, "joiner_lag_progress"}, 1, mf, false})
 			pinned = append(pinned, base{3, []string{ev, "joiner_ok"}, 1, mf, false})
 		}
 	}
@@ -368,7 +369,7 @@ func TestVerifC04(t *testing.T) {
 		evicts, joins := false, false
 		for _, c := range b.cls {
 			evicts = evicts || c == "member_dead" || c == "member_stopped" || c == "member_ioerr" || c == "member_diverged"
-			joins = joins || c == "joiner_ok"
+			joins = joins || c == "joiner_ok" || c == "joiner_lag_progress"
 		}
 		if evicts {
 			for occ := 1; occ <= 6; occ++ {
